@@ -117,6 +117,10 @@ class Bus:
             else:
                 data, sw = self.device.exchange(apdu)
                 drop = getattr(self.device, "pending_link", None)
+                if drop is not None and fault is not None:
+                    # an injected outcome replaces the device's own link drop
+                    self.device.pending_link = None
+                    drop = None
                 if drop is not None and fault is None:
                     # the device itself drops the link (e.g. USB re-enumeration
                     # when an app exits): modelled as a processed fault
